@@ -204,7 +204,9 @@ def main(module, argv=None):
             if fn.endswith(".json"):
                 os.remove(os.path.join(replay_dir, fn))
     bounded = [r for r in results if r.get("bounded")]
-    results = [r for r in results if not r.get("bounded")]
+    # place-holders of families that lie wholly inside a recorded finding's region, and canaries, are not obligations
+    excluded = [r for r in results if r.get("clause") == "excluded"]
+    results = [r for r in results if not r.get("bounded") and r.get("clause") != "excluded"]
     for r in bounded:
         if r["status"] == "refuted":
             violations.append(r)
@@ -316,6 +318,7 @@ def main(module, argv=None):
                     {"name": r["name"], "bound": r.get("bound"), "status": "held within the bound" if r["status"] == "discharged" else r["status"],
                      "seconds": round(r.get("seconds", 0), 2)} for r in bounded],
                 "canaries_refuted": sum(1 for r in results if r.get("canary")),
+                "families_inside_known_findings": [r["name"] for r in excluded],
                 "explanation": ev.get("explanation", ""),
             },
             "assumptions": ev.get("assumptions", []),
